@@ -18,6 +18,24 @@ add('C01', "TLC evaluates the TLA+ documented-semantics operator PegSem!Parse on
     "(spec/UNSPECIFIED.md, predicate PegGrammar!Unspecified) are checked for accept/reject and end position only.",
     "TLA+ spec PegSem evaluated by TLC (exhaustive small universe + seeded random) with spec->code replay into tatsu.compile(...).parse", "5 C01, 3.2")
 
+add('C02', "For every grammar of the universe TLC evaluates PegSem!Parse; the generated Python source is compiled (valid-Python claim), executed, "
+    "and run on every text under the settings matrix {defaults, ignorecase, nameguard off, whitespace override, parseinfo}; its outcome must equal "
+    "the model's outcome (all shapes) and conform to the specification (specified shapes). Divergences explained by a listed deviation "
+    "(KF-C02-1 last-node binding, KF-C02-2 define only in sequences) are printed as known findings; anything else is a violation.",
+    "Trusted: TLC, Python re, projections in harness/absgrammar.py. Known-finding scopes are static predicates over the grammar (harness/drivers/c02.py); "
+    "an unrelated divergence inside such a grammar that only changes the AST could be attributed to the listed finding.",
+    "TLA+ spec PegSem evaluated by TLC + spec->code replay into generated parsers and the model (three-way comparison)", "5 C02, 3.6")
+add('C03', "TLC evaluates PegSem!Parse (seed growing with a dynamic head, docs/left_recursion.rst) on 11 families of layered left-recursive grammars "
+    "under all 24 assignments of rule names x every operator/operand string up to the bound; every outcome (accept/reject, end, left-nested AST) "
+    "is replayed into the real model under recursion-limit and wall-clock guards (RecursionError/timeout = violation). Exhaustive within bounds.",
+    "Trusted: TLC, projections. KF-C03-1 (static leader) is recognised by family + name order + direction of the mismatch.",
+    "TLA+ spec PegSem (left-recursion seeds) evaluated by TLC, exhaustive family universe, spec->code replay", "5 C03")
+add('C05', "18 skeletons x a cut inserted at every position of every sequence x every text up to the bound: TLC evaluates PegSem!Parse, whose cut scopes "
+    "are exactly the docs' equivalences (A->[x] == B->x|e, {x} == B->xB|e, join == e {s ~ e}); each outcome is replayed into the real parser. "
+    "A lost or leaked cut flag changes accept/reject or the end position of some enumerated case. Exhaustive within bounds.",
+    "Trusted: TLC, projections. Groups are treated as transparent for cuts (as C05 lists the scopes).",
+    "TLA+ spec PegSem (cut scopes) evaluated by TLC, exhaustive cut-placement universe, spec->code replay", "5 C05")
+
 import sys
 checks = [C[p] for p in props if p in C]
 na = [{"property_id": p, "reason": "check not built yet in this round (build in progress; DESIGN.md section 10 gives the order)"} for p in props if p not in C]
